@@ -7,8 +7,4 @@ CONSTANTS
   LimMode = "none"
   Firsts = {"lo", "st", "sp", "dd", "dq", "sq", "bt", "bs"}
   Sample = FALSE
-INVARIANT OwnContentFindsIt
-INVARIANT NoUnproducibleToken
-INVARIANT RenderLexRoundTrip
-INVARIANT LowerShortcutSound
-INVARIANT Emit
+INVARIANT CheckAndEmit
